@@ -1,6 +1,6 @@
 (* C17 - every input is announced to cargo for rebuild tracking.  Theorems only. *)
 From Coq Require Import Lia.
-From Ructe Require Import Nom Utf8 Emit Compile Md5 Static Tables Build MapProofs BuildProofs.
+From Ructe Require Import Nom Utf8 Emit Compile Md5 Static Tables Build MapProofs BuildProofs NonInterference.
 Local Open Scope list_scope.
 
 Section C17.
@@ -17,7 +17,45 @@ Section C17.
     let w := fst (run_script uni_esc uni_alnum compile utils_src statics_header mm tree base cs) in
     In p (reads w) -> In (Line (b "cargo:rerun-if-changed=" ++ p)) (out w).
   Proof. intros tree base cs p w I. exact (Ann_run_script uni_esc uni_alnum compile utils_src statics_header mm tree base cs p I). Qed.
+
+  (* the converse: what is not announced cannot influence the output.  compile_templates sees a
+     directory only through the names and kinds of its entries, the content of template files
+     (UTF-8 name with a template suffix) and, recursively, the same of sub-directories with a UTF-8
+     name: erasing everything else -- other files' contents, whatever lies below a skipped
+     directory -- leaves the result (generated files, stdout, read set, success) unchanged ... *)
+  Theorem unannounced_inputs_cannot_matter : forall fuel w f indir outdir es,
+    handle_entries uni_esc compile fuel w f indir outdir es =
+    handle_entries uni_esc compile fuel w f indir outdir (erase_es es).
+  Proof. exact (handle_entries_erase uni_esc compile). Qed.
+
+  (* ... and the paths that survive the erasure -- the visited sub-directories and the template
+     files -- are exactly what a successful walk records as read (each of them announced, by the
+     theorem above; the directory given to compile_templates itself is announced by the caller) *)
+  Theorem reads_are_exactly_what_is_looked_at : forall fuel w f indir outdir es w' f',
+    handle_entries uni_esc compile fuel w f indir outdir es = BOk _ (w', f') ->
+    reads w' = reads w ++ reads_t fuel indir es.
+  Proof. exact (reads_handle_entries uni_esc compile). Qed.
+
+  (* add_files reads the regular files of one directory that have an extension: sub-directories
+     are not entered, files without an extension are skipped unread *)
+  Theorem add_files_ignores_what_it_skips : forall s dir es,
+    add_files uni_esc uni_alnum mm s dir es = add_files uni_esc uni_alnum mm s dir (erase_files dir es).
+  Proof. exact (add_files_erase uni_esc uni_alnum mm). Qed.
+
+  (* add_files_as embeds by path (include_bytes!): only the names and kinds of the entries reach the
+     generated text and the announcements, never the contents *)
+  Theorem add_files_as_depends_on_names_only : forall fuel s dir to es,
+    add_files_as uni_esc uni_alnum mm fuel s dir to es = add_files_as uni_esc uni_alnum mm fuel s dir to (shape_es es).
+  Proof. exact (add_files_as_shape uni_esc uni_alnum mm). Qed.
 End C17.
+
+(* non-vacuity: two trees that differ in a non-template file, in a file below a directory whose
+   name is not UTF-8, and in nothing that is announced *)
+Example unannounced_differences :
+  let t1 := [(b "a.rs.html", File (b "T")); (b "notes.txt", File (b "one")); ([255%N], Dir [(b "x.rs.html", File (b "P"))])] in
+  let t2 := [(b "a.rs.html", File (b "T")); (b "notes.txt", File (b "two, longer")); ([255%N], Dir [(b "y.rs.html", File (b "Q")); (b "z", Dir [])])] in
+  erase_es t1 = erase_es t2 /\ t1 <> t2.
+Proof. split; [vm_compute; reflexivity|discriminate]. Qed.
 
 (* non-vacuity, and the walked directory of add_files_as in particular (the defect fixed in
    cc40dba): the directory and its sub-directory are both read and both announced *)
@@ -31,3 +69,8 @@ Example add_files_as_announces_directories :
 Proof. vm_compute. split; reflexivity. Qed.
 
 Redirect "assumptions/C17.reads_are_announced" Print Assumptions reads_are_announced.
+Redirect "assumptions/C17.unannounced_inputs_cannot_matter" Print Assumptions unannounced_inputs_cannot_matter.
+Redirect "assumptions/C17.reads_are_exactly_what_is_looked_at" Print Assumptions reads_are_exactly_what_is_looked_at.
+Redirect "assumptions/C17.add_files_ignores_what_it_skips" Print Assumptions add_files_ignores_what_it_skips.
+Redirect "assumptions/C17.add_files_as_depends_on_names_only" Print Assumptions add_files_as_depends_on_names_only.
+Redirect "assumptions/C17.unannounced_differences" Print Assumptions unannounced_differences.
